@@ -464,7 +464,7 @@ def run_shard(shard, tier) -> Stats:
     elif kind == "B3":
         run_B(st, version, a, part, nparts, triples=True)
     elif kind == "Aref":
-        run_A(st, version, 3, 0, 1, via_refresh=True)
+        run_A(st, version, LAN.RETRIES, 0, 1, via_refresh=True)      # device-level calls use the library's default budget
     else:
         run_B(st, version, a, part, nparts)
     st.traces = st.evaluations
